@@ -391,7 +391,7 @@ def nocopy_free(rng, depth, vt):
 def catalogue(tier, seed):
     shapes = curated()
     rng = random.Random(seed * 1000003 + 17)
-    nrand = 12 if tier == "quick" else 120
+    nrand = 0 if tier == "quick" else 120
     tries = 0
     seen = set(json.dumps(s) for s in shapes)
     while nrand > 0 and tries < 5000:
